@@ -53,6 +53,12 @@ def run(ck):
     ck.floor("1", "extracted (method x state x child result) cells", r["cells"], 40)
     ck.floor("1", "reachable configurations", r["states"], 8)
     ck.floor("1", "state variants", len(r["variants"]), 6)
+    # the explorer assumes that an unregistered child is inert: the built-in fd child (Generic) must forget its poller
+    # and token when unregistered, or the old child of a replace() deletes, when it is dropped after the new one was
+    # registered, the registration of the new child on the same fd (shared with C07.2 / C16.1)
+    from props import C07 as _C07, common as _cm
+
+    _cm.import_results(ck, _C07, "2", "Generic", "2")
 
 
 def coverage_extra(checks):
